@@ -198,6 +198,7 @@ def check(ix, rep):
             rep.analysed(f)
             SS.check_function(ix, col, f, kn, slot_prefix='dense-online:')
             SS.check_build(ix, col, f, kn, online=True, slot_prefix='dense-online:')
+            SS.check_carry(ix, col, f, kn, slot_prefix='dense-online:')
         _kernel_pair(rep, col, 'dense-online', don.visitor.module.rel, 'TimedOnce', 'TimedHistorically')
         # which segments are emitted now and which are carried over is not summarised: the two partners must treat it alike
         da, db = mirror.unread_self_attrs(ix, ca), mirror.unread_self_attrs(ix, cb)
@@ -205,7 +206,7 @@ def check(ix, rep):
             fa, fb = ca.methods.get(meth), cb.methods.get(meth)
             if fa is not None and fb is not None:
                 if meth == 'update':
-                    # the merge step is decided semantically above: only the rest of update() is compared
+                    # the merge step and the emit/carry split are decided semantically (R-SEGSTEP, R-CARRY): only the rest of update() is compared
                     fa, fb = _without_step(fa), _without_step(fb)
                 mirror.compare_functions(rep, 'R-MIRROR', fa, fb, 'dense-online:TimedOnce~TimedHistorically:%s' % meth, drop_a=da, drop_b=db, sort_init=(meth == '__init__'))
     rep.floor('dual pairs decided', npairs, 12)
@@ -264,6 +265,9 @@ def _without_step(f):
                 return ast.Pass()
             return self.generic_visit(n)
     T().visit(node)
+    # the emit / carry-over loop over the stack is decided by R-CARRY in each partner
+    stack = info2['stack']
+    node.body = [s_ if not (isinstance(s_, ast.For) and any(isinstance(n, ast.Name) and n.id == stack for n in ast.walk(s_.iter))) else ast.Pass() for s_ in node.body]
     return _FuncView(f, node)
 
 
